@@ -160,7 +160,10 @@ pub fn vheaderlen_from_binary(data: &Bytes) -> (r: RusticResult<u32>)
 // Self::from_binary(&be.decrypt(&data)?): decrypt + binrw parse, both outside this unit
 #[verifier::external_body]
 pub fn vdecrypt_and_parse_header<B: DecryptReadBackend>(be: &B, data: &Bytes) -> (r: RusticResult<PackHeader>)
+    ensures r matches Ok(h) ==> h == HDR_OF(data.data@),
 { unimplemented!() }
+// what decrypting + parsing a byte string as a pack header yields (uninterpreted)
+pub uninterp spec fn HDR_OF(bytes: Seq<u8>) -> PackHeader;
 
 // ---- HeaderEntry: neighbours ----
 #[derive(Clone, Copy, PartialEq, Eq, Structural)]
